@@ -33,6 +33,11 @@ PROPERTY = {
     ] + [Harness(f"c01_{n}", f"C01.wrappers.{n}", "PROVED-C", d, crate="scylla-cql-core", functions=["scylla-cql-core/src/serialize/value.rs:Option<T>/MaybeUnset<T>/Unset serialize"])
          for n, d in (("option_none", "None -> null cell be32(-1)"), ("unset", "Unset -> be32(-2)"), ("maybe_unset", "MaybeUnset: Unset -> be32(-2), Set(v) -> v's cell"),
 )] + [
+        Harness("c01_text_str", "C01.varlen.text", "BOUNDED", "str -> text/ascii: [int 2] ++ the two bytes, earlier bytes untouched", bound="ASCII strings of exactly 2 bytes, all values", crate="scylla-cql-core", functions=["scylla-cql-core/src/serialize/value.rs:SerializeValue for str", "scylla-cql-core/src/deserialize/value.rs:DeserializeValue for &str"]),
+        Harness("c01_text_empty", "C01.varlen.text_empty", "PROVED-C", "the empty string is the zero-length cell [int 0] and decodes back to the empty string; null does not decode to a str", crate="scylla-cql-core", functions=["scylla-cql-core/src/serialize/value.rs:SerializeValue for str", "scylla-cql-core/src/deserialize/value.rs:DeserializeValue for &str"]),
+        Harness("c01_blob_slice", "C01.varlen.blob", "BOUNDED", "&[u8] -> blob: [int n] ++ bytes; decode(encode(b)) == b", bound="byte strings of <= 4 bytes, all values", crate="scylla-cql-core", functions=["scylla-cql-core/src/serialize/value.rs:SerializeValue for &[u8]", "scylla-cql-core/src/deserialize/value.rs:DeserializeValue for &[u8]"]),
+        Harness("c01_inet_v4", "C01.varlen.inet_v4", "PROVED-C", "every IPv4 address: [int 4] ++ 4 octets; round trip; a 3-byte inet cell refused", crate="scylla-cql-core", functions=["scylla-cql-core/src/serialize/value.rs:SerializeValue for IpAddr", "scylla-cql-core/src/deserialize/value.rs:DeserializeValue for IpAddr"]),
+        Harness("c01_inet_v6", "C01.varlen.inet_v6", "PROVED-C", "every IPv6 address: [int 16] ++ 16 octets; round trip", crate="scylla-cql-core", functions=["scylla-cql-core/src/serialize/value.rs:SerializeValue for IpAddr", "scylla-cql-core/src/deserialize/value.rs:DeserializeValue for IpAddr"]),
         Harness("c01_canary_i32_little_endian", "C01.kani.canary", "PROVED-C", "a false claim must be refuted", crate="scylla-cql-core", carries=False, canary=True),
     ],
     "trusted_base": ["Verus/Z3 soundness", "i32::to_be_bytes (big-endian)", "Vec slicing + copy_from_slice"],
